@@ -170,7 +170,7 @@ static int r1(int c, char **v, char *o, int n) { return record(1, c, v, o, n), 1
 static int r2(int c, char **v, char *o, int n) { return record(2, c, v, o, n), 102; }
 
 // command tables of 3 commands, some names being prefixes of others
-static const char *NAMES[4][3] = {{"a", "ab", "b"}, {"ab", "abb", "a"}, {"a/", ".", "\""}, {"ba", "b.", "aa"}};
+static const char *NAMES[4][3] = {{"a", "ab", "b"}, {"ab", "abb", "a"}, {"a/", ".", "\""}, {"ba", "\xE1", "a\xA0" "b"}};
 enum
 {
     NTABLES = 4,
@@ -398,7 +398,7 @@ static void lines_run(uint64_t idx)
     }, false);
     vf::count_bulk(n, k);
     if (idx == 30 && vf::want_sample())
-        vf::sample("shell: every NUL-free line of length <= %d over the alphabet x 4 tables {a,ab,b},{ab,abb,a},{a/,.,\"},{ba,b.,aa} through "
+        vf::sample("shell: every NUL-free line of length <= %d over the alphabet x 4 tables {a,ab,b},{ab,abb,a},{a/,.,\"},{ba,0xE1,a 0xA0 b} through "
                    "mshell_execute, mshell_tables_execute, rshell_execute (dropargs 0/1), rshell_tables_execute, rshell_execute_v",
                    enum_maxlen(false));
 }
@@ -416,7 +416,7 @@ static void rand_run(uint64_t idx)
     else
     {
         // command-like: leading blanks, a (near) command name, up to 14 arguments
-        static const char *HEADS[] = {"a", "ab", "b", "abb", "a/", ".", "\"", "ba", "b.", "aa", "abc", "", "A", "a."};
+        static const char *HEADS[] = {"a", "ab", "b", "abb", "a/", ".", "\"", "ba", "b.", "aa", "abc", "", "A", "a.", "\xE1", "a\xA0" "b", "a\xA0", "\xA0"};
         int lead = r.chance(1, 3) ? (int)r.below(4) : 0;
         for (int i = 0; i < lead; i++)
             s += WS[r.below(4)];
@@ -429,7 +429,7 @@ static void rand_run(uint64_t idx)
                 s += WS[r.chance(3, 4) ? 0 : r.below(4)];
             int l = 1 + (int)r.below(5);
             for (int j = 0; j < l; j++)
-                s += "ab/.\"x-1"[r.below(8)];
+                s += "ab/.\"x-1\xA0\x89"[r.below(10)];
         }
         if (r.chance(1, 3))
             s += WS[r.below(4)];
